@@ -40,7 +40,7 @@ def delta_of(value, field_term):
     if v[0] == "binop" and v[2] == field_term and cval(v[3]) is not None:
         if v[1] in ("Add", "AddWithOverflow", "AddUnchecked"):
             return cval(v[3])
-        if v[1] in ("Sub", "SubWithOverflow", "SubUnchecked"):
+        if v[1] in ("Sub", "SubWithOverflow", "SubUnchecked", "SubSat"):
             return -cval(v[3])
     if v[0] == "call" and v[1][1] in ("wrapping_add", "saturating_add", "checked_add") and v[2] and v[2][0] == field_term and cval(v[2][1]) is not None:
         return cval(v[2][1])
